@@ -111,6 +111,7 @@ func checkC06(c *Ctx) {
 	serverSendsGiveUp(c, fns, "R-nonblocking-send")
 	watcherGoroutinesEnd(c, fns, "R-watcher-ends")
 	interfaceKeysHashable(c, fns, "R-hashable-key")
+	nilableMembers(c, fns, "R-nil-member")
 	c06IndexGuard(c, fns, "R-index-guard")
 	c.R.Min("R-nonblocking-send", 10)
 	// close-once
@@ -631,5 +632,177 @@ func interfaceKeysHashable(c *Ctx, fns []*ssa.Function, rule string) {
 	}
 	if n == 0 {
 		c.R.Hold(rule, "no map keyed by an interface type on server paths", "", "")
+	}
+}
+
+// nilableMembers (R-nil-member): a member of interface or pointer type that some function explicitly sets to nil after
+// construction (an option such as "without sessions") is nil in a supported configuration. On server paths every method
+// call through such a member is therefore (a) control dependent on a nil test of the member, or on a boolean member
+// that every nil-setting function switches off alongside, or (b) preceded in the same function by another call through
+// the member (which would have failed first), or (c) in a function all of whose library call sites satisfy (a)/(b).
+// A request that reaches an unguarded call panics the handler goroutine (net/http aborts the connection; the legacy
+// SSE and stdio servers die).
+func nilableMembers(c *Ctx, fns []*ssa.Function, rule string) {
+	// F -> flags switched off together with it
+	nilled := map[string]map[string]bool{}
+	for _, fn := range c.P.LibFns {
+		var nilKeys, falseKeys []string
+		ir.EachInstr(fn, func(_ *ssa.BasicBlock, _ int, in ssa.Instruction) {
+			st, ok := in.(*ssa.Store)
+			if !ok {
+				return
+			}
+			fa, ok := st.Addr.(*ssa.FieldAddr)
+			if !ok {
+				return
+			}
+			key, _, typ, base := ir.FullField(fa)
+			if key == "" || ir.BaseAlloc(base) {
+				return
+			}
+			if ir.IsNilConst(st.Val) {
+				switch typ.Underlying().(type) {
+				case *types.Interface, *types.Pointer:
+					nilKeys = append(nilKeys, key)
+				}
+			}
+			if cst, ok := st.Val.(*ssa.Const); ok && cst.Value != nil && cst.Value.String() == "false" {
+				falseKeys = append(falseKeys, key)
+			}
+		})
+		for _, k := range nilKeys {
+			fl := map[string]bool{}
+			for _, f := range falseKeys {
+				fl[f] = true
+			}
+			if prev, ok := nilled[k]; ok {
+				for f := range prev {
+					if !fl[f] {
+						delete(prev, f)
+					}
+				}
+			} else {
+				nilled[k] = fl
+			}
+		}
+	}
+	derefs := func(fn *ssa.Function) []ssa.CallInstruction {
+		var out []ssa.CallInstruction
+		ir.EachCall(fn, func(call ssa.CallInstruction) {
+			cc := call.Common()
+			var recv ssa.Value
+			if cc.IsInvoke() {
+				recv = cc.Value
+			} else if sc := ir.StaticCallee(call); sc != nil && sc.Signature.Recv() != nil && len(cc.Args) > 0 {
+				recv = cc.Args[0]
+			}
+			if recv == nil {
+				return
+			}
+			if u, ok := recv.(*ssa.UnOp); ok {
+				if fa, ok := u.X.(*ssa.FieldAddr); ok {
+					if key, _, _, _ := ir.FullField(fa); nilled[key] != nil {
+						out = append(out, call)
+					}
+				}
+			}
+		})
+		return out
+	}
+	keyOf := func(call ssa.CallInstruction) string {
+		cc := call.Common()
+		recv := cc.Value
+		if !cc.IsInvoke() {
+			recv = cc.Args[0]
+		}
+		key, _, _, _ := ir.FullField(recv.(*ssa.UnOp).X.(*ssa.FieldAddr))
+		return key
+	}
+	pds := map[*ssa.Function]*flow.PostDom{}
+	var guardedAt func(fn *ssa.Function, at ssa.Instruction, key string, d int) bool
+	guardedAt = func(fn *ssa.Function, at ssa.Instruction, key string, d int) bool {
+		if pds[fn] == nil {
+			pds[fn] = flow.NewPostDom(fn)
+		}
+		for _, g := range pds[fn].ControlDepsTransitive(at.Block()) {
+			cond, want := g.If.Cond, g.Branch
+			for {
+				if u, ok := cond.(*ssa.UnOp); ok && u.Op == token.NOT {
+					cond, want = u.X, !want
+					continue
+				}
+				break
+			}
+			if bin, ok := cond.(*ssa.BinOp); ok {
+				v, other := bin.X, bin.Y
+				if ir.IsNilConst(v) {
+					v, other = other, v
+				}
+				if f, _, ok := ir.LoadedField(v); ok && ir.IsNilConst(other) && f.Key() == key {
+					if bin.Op == token.NEQ && want || bin.Op == token.EQL && !want {
+						return true
+					}
+				}
+			}
+			if f, _, ok := ir.LoadedField(cond); ok && nilled[key][f.Key()] && want {
+				return true
+			}
+		}
+		// ... or on the ok-edge of a check-and-report helper that establishes the flag
+		for _, ff := range boolFieldFacts(c, fn, at.Block(), 0) {
+			if ff.Value && nilled[key][ff.Field] {
+				return true
+			}
+		}
+		// an earlier call through the same member on every path to here
+		for _, dc := range derefs(fn) {
+			if dc != at.(ssa.CallInstruction) && keyOf(dc) == key && flow.Dominates(dc.(ssa.Instruction), at) {
+				return true
+			}
+		}
+		if d >= 2 {
+			return false
+		}
+		nCallers := 0
+		for _, e := range ir.Callers(c.G, fn) {
+			if e.Site == nil || !c.P.IsLib(e.Caller.Func) {
+				continue
+			}
+			nCallers++
+			if !guardedAt(e.Caller.Func, e.Site, key, d+1) {
+				return false
+			}
+		}
+		return nCallers > 0
+	}
+	n := 0
+	for _, fn := range fns {
+		if c.InitOnly()[fn] {
+			continue
+		}
+		cnt := map[string]int{}
+		for _, call := range derefs(fn) {
+			key := keyOf(call)
+			n++
+			cnt[key]++
+			ok := guardedAt(fn, call.(ssa.Instruction), key, 0)
+			var flags []string
+			for f := range nilled[key] {
+				flags = append(flags, f)
+			}
+			sort.Strings(flags)
+			c.R.Check(ok, rule, sprintf("call #%d through %s in %s", cnt[key], key, fname(fn)), c.Pos(call.Pos()),
+				"guarded by a nil test, the accompanying flag, or an earlier call through the member",
+				sprintf("%s calls a method through %s, which a supported configuration sets to nil, without testing it (or %v, switched off with it): a request that reaches this call panics with a nil dereference instead of being answered with an HTTP error", fname(fn), key, flags))
+		}
+	}
+	var ks []string
+	for k := range nilled {
+		ks = append(ks, k)
+	}
+	sort.Strings(ks)
+	c.R.Extra["members_set_to_nil_by_configuration"] = ks
+	if n == 0 {
+		c.R.Hold(rule, "no calls through members that a configuration sets to nil", "", sprintf("%v", ks))
 	}
 }
